@@ -29,16 +29,7 @@ def check(ck):
         asyncrules.check_structured_concurrency(ck, repo, REQUEST_PACKAGES)
         gs = asyncrules.gathers(repo)
         ck.count("gather_sites", len(gs))
-        n_field = 0
-        for f, fv, g in gs:
-            kind = _gather_operand_kind(repo, f, fv, g)
-            if kind == "field-execution":
-                n_field += 1
-                ck.ob(f"{f.qualname}: gather over field executions / value completions passes return_exceptions=True (it returns only after all operands finished)",
-                      arg_text(g, None, "return_exceptions") == "True", f, g, construct=f"gather:{f.qualname}:return-exceptions",
-                      detail="without it the first failure returns at once while sibling resolvers are still running when execute returns")
-            ck.ob(f"{f.qualname}: the gather is awaited where it is created", fv.is_awaited(g), f, g, construct=f"gather:{f.qualname}:awaited")
-        ck.count("field_execution_gathers", n_field)
+        asyncrules.check_field_execution_gathers(ck, repo)
     with ck.rule("R2"):
         for f, fv, g in asyncrules.gathers(repo):
             ok, how = _positional_merge(f, fv, g)
